@@ -51,3 +51,70 @@ def noexcept_body(run, F):
                               'the conditional noexcept specification of %s (`%s`) does not account for the %s() it calls outside any try block: when that customisation throws, the function is noexcept(true) and the exception becomes std::terminate instead of propagating / being reported through set_error' % (
                                   f['qname'].replace('unifex::', ''), txt[:160], nm))
     if n == 0: raise Broken('no conditional-noexcept function calling a customisation point found')
+
+
+# ---------------------------------------------------------------------------------------------- R-NOEXCEPT-KIND
+import json, os, sys, collections
+from ..core import VERIF
+from ..facts import may_throw
+KTABLE = os.path.join(VERIF, 'tables', 'noexcept_kinds.json')
+PROTOCOL_FUNCS = {'set_value', 'set_error', 'set_done', 'set_next', 'start', 'operator()', 'tag_invoke', 'connect', 'stop', 'request_stop'}
+THROWY = {'emplace', 'construct', 'construct_with', 'activate_union_member', 'activate_union_member_with', 'invoke', 'connect', 'push_back', 'emplace_back', 'allocate',
+          'set_value', 'set_next', 'schedule', 'submit'}
+
+
+def _kinds(F):
+    out = {}
+    for f in F.funcs:
+        if f['name'] not in PROTOCOL_FUNCS or f.get('lambda') or not f.get('blocks') or not f.get('record'): continue
+        from .polarity import norm_fn
+        k = (f['file'], norm_fn(f['record']), f['name'], len(f.get('params', [])))
+        out.setdefault(k, []).append(f)
+    return out
+
+
+@rule('R-NOEXCEPT-KIND', ['C05', 'C02', 'C01'], floor=200)
+def noexcept_kind(run, F):
+    """a protocol function (receiver handlers set_value/set_error/set_done/set_next, start, connect, stop hooks, callbacks) whose exception specification was not an unconditional noexcept on the pinned tree (frozen table tables/noexcept_kinds.json) has not become unconditionally noexcept while its body still calls something that can throw (a copy/emplace of user values, a user callable, connect) outside any try block: the throw that the sender contract routes back to the caller's handler (-> set_error) would become std::terminate"""
+    with open(KTABLE) as fh: tab = {(r['file'], r['cls'], r['name'], r['nparams']): r for r in json.load(fh)['rows']}
+    n = 0
+    for k, fs in _kinds(F).items():
+        r = tab.get(k)
+        if r is None: continue
+        n += 1
+        run.inst('%s:%s %s::%s' % (k[0], fs[0]['line'], k[1], k[2]), 'exception specification kind: %s' % r['kinds'], key=k)
+        for f in fs:
+            kind = f.get('noexcept')
+            if kind == 'yes' and 'yes' not in r['kinds']:
+                G = Graph(f)
+                bad = None
+                for node, e in G.ev.items():
+                    if e.get('k') != 'call' or e.get('nothrow'): continue
+                    nm = (e['callee'].get('name') or '').split('::')[-1]
+                    if nm not in THROWY: continue
+                    if any(l == 'exc' for _, l in G.succ.get(node, [])): continue
+                    if (e.get('macro') or '').startswith(('UNIFEX_ASSERT', 'assert')): continue
+                    bad = (nm, e.get('line')); break
+                if bad:
+                    run.violation(f['qname'], 'noexcept-added', '%s:%s' % (f['file'], f['line']),
+                                  '%s is now unconditionally noexcept (the frozen table has %s) although it calls %s() at line %s outside any try block: an exception thrown there no longer travels back to the caller (which reports it through set_error) but calls std::terminate' % (
+                                      f['qname'].replace('unifex::', ''), '/'.join(r['kinds']), bad[0], bad[1]))
+    if n == 0: raise Broken('no protocol function of the exception-specification table found')
+
+
+def freeze_kinds():
+    from .. import extract
+    from ..facts import Facts
+    cfgs = ['d20', 'd17', 'r17', 'r20', 'v20']
+    files, _ = extract.extract(cfgs)
+    acc = collections.defaultdict(set)
+    for c in cfgs:
+        for k, fs in _kinds(Facts(files[c], c)).items():
+            for f in fs: acc[k].add(f.get('noexcept') or 'none')
+    rows = [dict(file=k[0], cls=k[1], name=k[2], nparams=k[3], kinds=sorted(v)) for k, v in sorted(acc.items())]
+    with open(KTABLE, 'w') as fh: json.dump(dict(_doc='frozen exception-specification kinds of protocol functions; see usa/rules/noexcept.py', rows=rows), fh, indent=0)
+    print(len(rows), 'functions', collections.Counter(tuple(r['kinds']) for r in rows))
+
+
+if __name__ == '__main__':
+    if '--freeze-kinds' in sys.argv: freeze_kinds()
